@@ -172,13 +172,54 @@ def frameOf (enc : Bytes → Bytes) (raw : Bytes) : Except Err Bytes :=
   | .error e => .error e
   | .ok h => .ok (h ++ enc raw)
 
-/-- `compress(data, compression_block_size=blockSize)` for a buffer of `items` (each of
-`data.itemsize = itemsize` bytes): the list of yielded byte strings -/
+/-- the frames of successive raw compression blocks (`yield header + compressed` per block) -/
+def framesOf (enc : Bytes → Bytes) : List Bytes → Except Err (List Bytes)
+  | [] => .ok []
+  | raw :: rest =>
+    match frameOf enc raw with
+    | .error e => .error e
+    | .ok f =>
+      match framesOf enc rest with
+      | .error e => .error e
+      | .ok fs => .ok (f :: fs)
+
+/-- `list(compress(data, compression_block_size=blockSize))` for a buffer of `items` (each of
+`data.itemsize = itemsize` bytes): the yielded byte strings -/
 def compress (enc : Bytes → Bytes) (itemsize blockSize : Nat) (items : List Bytes) :
     Except Err (List Bytes) :=
   let nelem := blockSize / itemsize
   if nelem = 0 then .error .zeroStep
-  else (blocksOf nelem items).mapM (fun blk => frameOf enc blk.flatten)
+  else framesOf enc ((blocksOf nelem items).map List.flatten)
+
+/-! ### specification vocabulary -/
+
+/-- one frame of the stream: big-endian length prefix, then the (compressed) payload -/
+def frame (p : Bytes) : Bytes := be32 p.length ++ p
+
+/-- the stream that carries the payloads `ps` -/
+def stream (ps : List Bytes) : Bytes := ps.flatMap frame
+
+/-- well-formed payload list: every payload non-empty (the code uses `_size == 0` for "length not
+known yet"; a blosc frame has a 16-byte header) and short enough for a 4-byte prefix -/
+def WF (ps : List Bytes) : Prop := ∀ p ∈ ps, p ≠ [] ∧ p.length < 2 ^ 32
+
+instance (ps : List Bytes) : Decidable (WF ps) := by unfold WF; infer_instance
+
+/-- the state between frames: nothing pending (`_pos` is dead while `_buffer is None`: it is
+reset to 0 before it is read again) -/
+def St.Idle (st : St) : Prop := st.size = 0 ∧ st.partialLen = [] ∧ st.buffer = none
+
+/-- the bytes of the current, incomplete frame that the state holds -/
+def St.pending (st : St) : Bytes :=
+  match st.buffer with
+  | none => st.partialLen
+  | some b => be32 st.size ++ b
+
+/-- shape of a state between two iterations of the loop -/
+def St.Shaped (st : St) : Prop :=
+  match st.buffer with
+  | none => st.size = 0 ∧ st.partialLen.length < 4
+  | some b => st.size ≠ 0 ∧ st.size < 2 ^ 32 ∧ st.partialLen = [] ∧ st.pos = b.length ∧ b.length < st.size
 
 /-! ### driver: a tiny codec so that frames can be 1–3 bytes long
 
